@@ -1,12 +1,16 @@
 import RR.Proof.Source
+import RR.Proof.FileSrc
+import RR.Proof.SigmfSrc
 
 /-!
 # C16 — finite sources emit their data exactly `repeat` times, then EOF
 
 Models: `RR.Src.Repeat` (src/lib.rs) with checked `u64` arithmetic and
-`RR.Src.vsWork` (VectorSource::work). FileSource and SigMFSource share the
-`Repeat` logic; their byte reassembly is C14, and their repeat behaviour is
-checked on the real code against the same specification (`!src` lines: total
+`RR.Src.vsWork` (VectorSource::work), `RR.Src.fsWork` (FileSource::work, read
+through a buffered reader that may return short reads), `RR.Src.sgWork`
+(SigMFSource::work over the data range of a recording or archive member). All three are
+compared call by call with the real blocks (`blk vsrc|fsrc|sgsrc` lines); in addition the real
+blocks are checked against the specification directly (`!src` lines: total
 output = data x repeat exactly, EOF exactly at the end, never for infinite).
 -/
 namespace RR.Props.C16
@@ -88,6 +92,82 @@ theorem c16_marker_tags (data : List Nat) (st : VSt) (f : Nat) (hd : data ≠ []
     · rename_i h; exact absurd h hag
     · split <;> rfl
   · rfl
+
+/-- **FileSource**: for every consumption schedule (free space seen by each call), for files whose
+length is or is not a whole number of samples, and however the buffered reader cuts its reads, the
+cumulative output is whole repetitions of the file's whole samples followed by the first
+`pos / size` of them, never anything else (a trailing partial sample is never carried into the next
+repetition); and if some call answered `EOF`, exactly `n` repetitions have been emitted. -/
+theorem c16_file (file : List Nat) (size n : Nat) (hs : 0 < size) (hn0 : 0 < n) (hn : n < 2 ^ 64)
+    (frees : List Nat) :
+    let r := fsDrive file size ⟨0, 0, [], Repeat.finite n⟩ [] false frees
+    FsGood file size n r.1 ∧ r.2.1 = fsEmitted file size n r.1 ∧
+      (r.2.2 = true → r.2.1 = rept n (fileSamples file size)) := by
+  have hg : FsGood file size n ⟨0, 0, [], Repeat.finite n⟩ :=
+    ⟨n, rfl, by simp [Repeat.finite], Nat.zero_le _, Nat.zero_le _, by simp⟩
+  have he : fsEmitted file size n ⟨0, 0, [], Repeat.finite n⟩ = [] := by
+    unfold fsEmitted Repeat.finite
+    cases n with
+    | zero => omega
+    | succ q => simp [rept, samplesOf]
+  have := fs_drive file size n hs hn ⟨0, 0, [], Repeat.finite n⟩ hg false (by intro h; cases h) frees
+  rw [he] at this
+  exact this
+
+/-- One call of FileSource never over- or underflows the repeat counter, answers `EOF` exactly when
+the last repetition has just been completed or was complete already, and `EOF` calls emit nothing. -/
+theorem c16_file_step (file : List Nat) (size n : Nat) (hs : 0 < size) (hn : n < 2 ^ 64) (st : FsSt)
+    (hg : FsGood file size n st) (f : Nat) :
+    let r := fsWork file size st ⟨[], [⟨f, true⟩]⟩
+    (r.2.verdict = .eof ↔ r.1.rep.r = .finite 0) ∧ r.2.verdict ≠ .panic ∧
+    (r.2.verdict = .eof → fsEmitted file size n r.1 = rept n (fileSamples file size)) := by
+  intro r
+  obtain ⟨_, _, h3, h4⟩ := fs_step file size n hs hn st hg f
+  refine ⟨h3, h4, ?_⟩
+  intro he
+  have := h3.mp he
+  simp only [fsEmitted]
+  rw [this]
+  rfl
+
+/-- `repeat = 0`: EOF at once, nothing emitted, nothing read. -/
+theorem c16_file_zero (file : List Nat) (size : Nat) (v : View) :
+    fsWork file size ⟨0, 0, [], Repeat.finite 0⟩ v = (⟨0, 0, [], Repeat.finite 0⟩, noOut v .eof) := by
+  simp [fsWork, Repeat.done, Repeat.finite]
+
+/-! Non-vacuity: a 7-byte file of 2-byte samples (one stray byte), 2 repetitions, space 1, 1, 5, … -/
+example : (fsDrive [1, 0, 2, 0, 3, 0, 9] 2 ⟨0, 0, [], Repeat.finite 2⟩ [] false [1, 1, 5, 0, 5, 2, 5, 5, 5]).2 =
+    ([1, 2, 3, 1, 2, 3], true) := by
+  decide
+
+/-- **SigMFSource**: for every consumption schedule the cumulative output is whole repetitions of
+the recording's whole samples followed by a prefix of them; if some call answered `EOF`, exactly
+`n` repetitions have been emitted. -/
+theorem c16_sigmf (data : List Nat) (size n : Nat) (hs : 0 < size) (hn0 : 0 < n) (hn : n < 2 ^ 64)
+    (hd : data ≠ []) (frees : List Nat) :
+    let r := sgDrive data size ⟨data.length, [], Repeat.finite n⟩ [] false frees
+    SgGood data size n r.1 ∧ r.2.1 = sgEmitted data size n r.1 ∧
+      (r.2.2 = true → r.2.1 = rept n (fileSamples data size)) := by
+  have hg : SgGood data size n ⟨data.length, [], Repeat.finite n⟩ :=
+    ⟨n, rfl, by simp [Repeat.finite], Nat.le_refl _, by simp⟩
+  have he : sgEmitted data size n ⟨data.length, [], Repeat.finite n⟩ = [] := by
+    unfold sgEmitted Repeat.finite
+    cases n with
+    | zero => omega
+    | succ q => simp [rept, samplesOf]
+  have := sg_drive data size n hs hn hd ⟨data.length, [], Repeat.finite n⟩ hg false (by intro h; cases h) frees
+  rw [he] at this
+  exact this
+
+/-- An empty recording, or `repeat = 0`: EOF at once, nothing emitted. -/
+theorem c16_sigmf_zero (data : List Nat) (size : Nat) (rep : Repeat) (st : SgSt) (v : View) :
+    sgWork [] size st v = (st, noOut v .eof) ∧
+    sgWork data size ⟨data.length, [], Repeat.finite 0⟩ v = (⟨data.length, [], Repeat.finite 0⟩, noOut v .eof) := by
+  simp [sgWork, Repeat.done, Repeat.finite]
+
+example : (sgDrive [1, 0, 2, 0, 3, 0, 9] 2 ⟨7, [], Repeat.finite 2⟩ [] false [1, 1, 5, 0, 5, 2, 5, 5, 5]).2 =
+    ([1, 2, 3, 1, 2, 3], true) := by
+  decide
 
 /-! Non-vacuity: 2 repetitions of 3 samples through space 2, 2, 5, 1, 9. -/
 example : (driveSrc [7, 8, 9] ⟨0, Repeat.finite 2⟩ [] false [2, 2, 5, 1, 9]).2 = ([7, 8, 9, 7, 8, 9], true) := by
